@@ -126,6 +126,17 @@ CLAIMS["C17"] = ("proof", "Lean 4 theorems over a process-level product model (w
                  "locked sections open in several worlds) and checks after every op the observations of ALL live worlds.",
                  WORLD_NOTE + "; at most 1024 automatically numbered worlds alive at once; one thread drives all worlds (the cached dispatcher thread id is "
                  "constant); systems' independence only through C14's model per world")
+CLAIMS["C10"] = ("proof", "Lean 4 layout / command-buffer allocator theorems tied to the generated alignAs/div/mod + differential layout tie with a worst-case aligned_alloc + sanitizer runs",
+                 "layout_aligned (exact condition: component alignment divides the chunk alignment), chunkAlign_max_divisible / fixed_rule_aligned, "
+                 "first_component_rule_insufficient (witness against the pinned rule), layout_in_bounds, addr_in_chunk, layout_disjoint, addr_stable, "
+                 "storage_slots_backed, talloc_sound / talloc_consecutive / talloc_history (command-buffer allocator), bridged to the definitions "
+                 "regenerated from the LLVM IR of alignAs and the chunk/item split; the real storage is compared with the model on run-time described "
+                 "component sets (sizes 0..4096, alignments 1..64, any order) under ASan+UBSan AND under an interposed allocator that returns exactly the "
+                 "requested alignment; every pointer handed out is checked for alignment, bounds and agreement with the model; the world-model corpus and "
+                 "generated histories run under the sanitizers.",
+                 "Lean kernel + standard axioms; PARTIAL BY NATURE: absence of undefined behaviour of the C++ abstract machine (lifetime, aliasing, use after "
+                 "free, data races) is validated by ASan/UBSan on explored histories only; assumptions: power-of-two alignments, size % align = 0, "
+                 "aligned_alloc honours the requested alignment, no 32-bit overflow")
 CLAIMS["C07"] = ("proof", "Lean 4 invariant proof over a model of version stamps / job filters + correspondence on generated histories",
                  "no_missed_write and no_missed_write_history (a pending write / dirty mark / arrival / relocation / other job's write of a checked component "
                  "of an entity in a matching archetype is processed by the next run of the job, wherever update() and other jobs' runs fall in between), "
